@@ -58,6 +58,7 @@ type vfRedisEvent struct {
 	Key     string // first key argument (raw)
 	IsLock  bool
 	LockOp  string // for lock scripts: obtain | refresh | release-or-pttl (by the script's argument count)
+	LockTTL time.Duration // obtain: the time-to-live the store holds for the lock key right after the script ran
 	Fault   vfRedisFault
 	Err     string
 	At      time.Duration
@@ -178,6 +179,11 @@ func (h *vfRedisHook) ProcessHook(next goredis.ProcessHook) goredis.ProcessHook 
 		if key != "" {
 			detail += " " + w.sym("rkey", key)
 		}
+		// every command costs a few microseconds of simulated time (as any network round trip does). Without it a loop that
+		// polls the store every 10 ms reaches its 5 s deadline at exactly the instant of a poll, and which of two timers of one
+		// instant runs first is not ours to decide - the run would not replay. (Before the yield point: a task that sleeps after its
+		// release would run concurrently with the next one.)
+		time.Sleep(3 * time.Microsecond)
 		// yield point
 		if err := w.sched.yield(ctx, "redis", detail); err != nil {
 			cmd.SetErr(err)
@@ -225,6 +231,9 @@ func (h *vfRedisHook) ProcessHook(next goredis.ProcessHook) goredis.ProcessHook 
 			}
 		}
 		err := next(ctx, cmd)
+		if ev.LockOp == "obtain" && err == nil && key != "" {
+			ev.LockTTL = r.mr.TTL(key)
+		}
 		switch f.Kind {
 		case vfRFErrAfter:
 			return fail(errors.New("sim: redis reply lost"))
